@@ -10,7 +10,7 @@ TRUSTED = TRUSTED_BASE + ['Compiler/Templates.lean branch / normalisation templa
 ASSUMPTIONS = _A + ['A4 (floor division/modulus on negative operands) is not pinned by any recorded upstream output']
 RULE = ('theorems over the whole value space; searcher: every operator and cast in value, branch (if/while/not) and defeat position with '
         'operands as parameters, globals, array elements and mixed, boundary grid {0,+-1,+-2,127,128,255,256,H-1,-H,...}^2 at w in '
-        '{2,3,4} (thorough: also 8), real hidc + Lean VM vs reference machine; non-trivial = agreeing run')
+        '{2,3,4} (thorough: also 8), real hidc + Lean VM vs reference machine (on the real typed tree, and on the typed tree of the Lean front-end model wherever the two differ); non-trivial = agreeing run')
 
 
 def run(ctx):
@@ -33,6 +33,8 @@ def run(ctx):
                 jobs.append(('%s_w%d_%d_%d' % (name, w, a, b), src, [str(a), str(b)], w, 100, False, 200000))
     suites.conformance(ctx, conf)
     suites.differential(ctx, jobs, None, label='operator-grid', must_compile=True)
+    # the same grid against the typed tree of the verified front-end model, wherever the real front end's tree differs
+    suites.independent_front_end(ctx, {name: src for name, src in progs}, jobs)
     ctx.samples.append(dict(program=progs[3][1][:700], args=['-32768', '-1']))
 
 
